@@ -211,7 +211,11 @@ class BoostNpcLinearOperator(NpcLinearOperatorWrapper):
 
     def to_matrix(self):
         mat = self.orig_operator.to_matrix()
-        return mat + self.shift * npc.eye_like(mat)
+        labels = mat.get_leg_labels()
+        for b, bv in zip(self.boosts, self.boost_vecs):
+            bv = bv.combine_legs(bv.get_leg_labels()) if bv.rank > 1 else bv
+            mat = mat + (b * npc.outer(bv, bv.conj())).iset_leg_labels(labels)
+        return mat
 
     def adjoint(self):
         return BoostNpcLinearOperator(self.orig_operator.adjoint(), np.conj(self.boosts), self.boost_vecs)
